@@ -57,7 +57,7 @@ WAVE_SPECS = [('wave', 'ramp6', 6), ('wave', 'alt01', 6), ('wave', 'neg6', 6), (
 LVL_SPECS = [('lvl', k, 6) for k in LEVELS]
 SCALAR_CONT = ['float', 'int', 'npfloat']
 WAVE_CONT_MZM = ['ndarray', 'ndarray_int', 'electrical_signal', 'list']
-WAVE_CONT_PM = ['ndarray', 'ndarray_int', 'electrical_signal']
+WAVE_CONT_PM = ['ndarray', 'ndarray_int', 'electrical_signal', 'electrical_signal_noisy']
 
 BIAS = [0.0, 0.5, -1.0, 0.3]          # in units of Vpi
 VPI = [5.0, 1.7, 1]                   # 1 is a python int on purpose
@@ -144,6 +144,9 @@ def realise(u, cont):
         return np.array(u).astype(np.int64)
     if cont == 'electrical_signal':
         return electrical_signal(np.array(u, float))
+    if cont == 'electrical_signal_noisy':      # a drive that carries its own (electrical) noise component
+        uu = np.array(u, float)
+        return electrical_signal(uu, 0.3 * (1 - 2 * (np.arange(uu.size) % 2)) + 0.05 * np.arange(uu.size))
     if cont == 'list':
         return [float(v) for v in u]
     raise KeyError(cont)
@@ -388,6 +391,20 @@ def pm_case(case):
     obs = (_bytes(osig), _bytes(onoise))
     if osig.shape != s_in.shape or (onoise is not None and onoise.shape != s_in.shape):
         fail('PM:shape', f'output shape {osig.shape} != input shape {s_in.shape}')
+        return res(viol=viol, obs=obs, nontrivial=True, stats=stats)
+
+    noisy_drive = any(c == 'electrical_signal_noisy' for c, _ in ops)
+    if noisy_drive:
+        # The statement does not say whether the noise component of a drive takes part in the phase shift; what it does say
+        # is that PM is a pure rotation of the TOTAL field: signal and noise must be rotated by the same angle per sample.
+        tin = s_in if n_in is None else s_in + n_in
+        tout = osig if onoise is None else osig + onoise
+        pin, pout = np.abs(tin) ** 2, np.abs(tout) ** 2
+        mag = (np.abs(s_in) + (0 if n_in is None else np.abs(n_in))) ** 2
+        if np.any(np.abs(pin - pout) > 64 * EPS * (mag + 1e-300)):
+            i = np.unravel_index(int(np.argmax(np.abs(pin - pout))), pin.shape)
+            fail('PM:total-power-changed:noisy-drive', f'drive with an electrical noise component: sample {i}: |S+N|^2 in = {pin[i]!r}, out = {pout[i]!r} '
+                                                       f'(signal and noise rotated by different angles)')
         return res(viol=viol, obs=obs, nontrivial=True, stats=stats)
 
     phis = [float(np.max(np.abs(u))) * np.pi / float(Vpi) for u in us]
